@@ -145,7 +145,10 @@ def _try_async_harness(prop, ds):
     return Harness(name, harness_fn(name, b, unwind=4), prog, note="profile %s, async Result; pending count <= 1 per initial gate" % (ds,))
 
 
-def _try_harness(prop, flavour, ds):
+def _try_harness(prop, flavour, ds, mac=None):
+    """mac: a thread-spawning try macro (native sweeps only): branches of a step run in parallel, so traces are compared
+    as multisets"""
+    spawn_mac = mac
     n = len(ds)
     is_async = flavour == "ares"
     opt = flavour == "opt"
@@ -223,7 +226,7 @@ def _try_harness(prop, flavour, ds):
                 t += " " + later_macro(i, s)
         brs.append(t)
         nev += ds[i]
-    mac = "try_join_async" if is_async else "try_join"
+    mac = spawn_mac or ("try_join_async" if is_async else "try_join")
     prog = "%s! { %s }" % (mac, ", ".join(brs))
     rty = "%s<%s%s>" % ("Option" if opt else "Result", tupty("u8", n), "" if opt else ", u8")
     if is_async:
@@ -262,6 +265,9 @@ def _try_harness(prop, flavour, ds):
     if not is_async:
         if prop == "C05":
             b += "    assert!(r == exp, \"C05: result differs from the staged reference\");\n"
+        elif spawn_mac:
+            b += "    assert!(r.is_%s() == exp.is_%s());\n" % (("some", "some") if opt else ("ok", "ok"))
+            b += "    assert!(traces_same_multiset(), \"C06: the events differ from the staged reference (order within a step disregarded)\");\n"
         else:
             b += "    assert!(r.is_%s() == exp.is_%s());\n" % (("some", "some") if opt else ("ok", "ok"))
             b += trace_eq(nev)
@@ -287,7 +293,7 @@ def _try_harness(prop, flavour, ds):
     b += "    kani_cover!(r.is_%s());\n" % ("some" if opt else "ok")
     if any(later_kind(i, s) in ("and_then", "then") for i in range(n) for s in range(1, ds[i])):
         b += "    kani_cover!(fail_step >= 1);\n"
-    name = "%s_try_%s_%s" % (prop.lower(), flavour, pname(ds))
+    name = "%s_try_%s_%s%s" % (prop.lower(), flavour, pname(ds), ("_" + spawn_mac) if spawn_mac else "")
     return Harness(name, harness_fn(name, b, unwind=((3 + max(ds)) if is_async else None)), prog,
                    note="profile %s, %s" % (ds, flavour))
 
@@ -441,7 +447,7 @@ def fam_barrier_sync(prop, tier):
     return out
 
 
-def _barrier_sync_harness(prop, ds, rot):
+def _barrier_sync_harness(prop, ds, rot, mac="join"):
     n = len(ds)
     b = ""
     for i in range(n):
@@ -462,7 +468,7 @@ def _barrier_sync_harness(prop, ds, rot):
                 refs.setdefault((s, i), []).append(r)
                 nev += 1
         brs.append(t)
-    prog = "join! { %s }" % ", ".join(brs)
+    prog = "%s! { %s }" % (mac, ", ".join(brs))
     b += "    let r: %s = %s;\n" % (tupty("Result<u8, u8>", n), prog)
     b += "    reference_mode();\n"
     for i in range(n):
@@ -474,9 +480,13 @@ def _barrier_sync_harness(prop, ds, rot):
                 b += "    let c%d: Result<u8, u8> = %s;\n" % (i, _apply_ref("c%d" % i, r))
     b += "    let exp = %s;\n" % tup("c%d" % i for i in range(n))
     b += "    assert!(r == exp, \"C03: a branch did not continue from its own previous step value\");\n"
-    b += trace_eq(nev)
+    if mac == "join":
+        b += trace_eq(nev)
+    else:
+        b += "    assert!(traces_same_multiset(), \"C03: the events differ from the staged reference\");\n"
+        b += "    assert!(trace_steps_monotone(), \"C03: an event of step k+1 was recorded before an event of step k\");\n"
     b += "    kani_cover!(tlen() >= %d);\n" % max(1, nev // 2)
-    name = "%s_barrier_sync_%s_r%d" % (prop.lower(), pname(ds), rot)
+    name = "%s_barrier_sync_%s_r%d%s" % (prop.lower(), pname(ds), rot, "" if mac == "join" else "_" + mac)
     return Harness(name, harness_fn(name, b), prog, note="profile %s, operator rotation %d" % (ds, rot))
 
 
@@ -1471,3 +1481,43 @@ def fam_names(prop, tier):
 
 
 FAMILIES["C17"] = [fam_names]
+
+
+# ======================================================================================
+# NATIVE SWEEPS (engine R, family `spawn_sweep`): the same Hoare triples instantiated with the THREAD-SPAWNING macros
+# and run natively on sampled input vectors (Kani has no threads).  Bounded stand-in: one OS schedule per run.
+# ======================================================================================
+
+def native_families(pid, tier):
+    out = []
+    quick = tier == "quick"
+    if pid == "C04":
+        profs = [(1, 2), (2, 1), (1, 2, 2), (2, 1, 2), (1, 3, 2), (3, 1, 2), (2, 3, 1), (1, 2, 3), (2, 1, 2, 2)] + ([] if quick else profiles([2, 3], 3))
+        for mac, var in [("join_spawn", "plain"), ("try_join_spawn", "plain"), ("join_spawn", "then"), ("try_join_spawn", "map"),
+                         ("try_join_spawn", "and_then"), ("join_spawn", "let"), ("try_join_spawn", "let"), ("spawn", "plain"), ("try_spawn", "map")]:
+            for ds in profs:
+                out.append(_pos_harness(pid, mac, var, ds))
+    if pid in ("C05", "C06"):
+        profs = [(2, 2), (1, 2), (2, 1), (3,), (3, 2), (2, 3), (1, 3, 2), (3, 1, 2), (2, 3, 1), (1, 2, 3), (3, 2, 3)] + ([] if quick else profiles([3], 3) + [(1, 2, 2, 3), (2, 1, 3, 3)])
+        for flavour in ("res", "opt"):
+            for ds in profs:
+                out.append(_try_harness(pid, flavour, ds, mac="try_join_spawn"))
+    if pid == "C03":
+        profs = [(2, 2), (1, 2), (2, 1), (3, 2), (2, 3), (1, 2, 2), (2, 1, 2), (3, 2, 1), (1, 3, 2), (2, 2, 2)]
+        for rot in range(3 if quick else len(SYNC_OPS)):
+            for ds in profs:
+                out.append(_barrier_sync_harness(pid, ds, rot * 2 if quick else rot, mac="join_spawn"))
+    if pid == "C12":
+        for mac in ("join_spawn", "try_join_spawn"):
+            for ds in [(2, 2), (1, 2), (2, 1), (2, 2, 2), (1, 2, 3), (2, 3, 1), (3, 1, 2)]:
+                for mask in (1, 2, 2 ** len(ds) - 1):
+                    out.append(_let_harness(pid, mac, ds, mask))
+            for ds in [(3, 1), (1, 3), (2, 4, 1)]:
+                out.append(_let_harness(pid, mac, ds, 2 ** len(ds) - 1, own=True))
+    if pid == "C13":
+        for mac, hk in [("join_spawn", "then"), ("try_join_spawn", "map"), ("try_join_spawn", "and_then")]:
+            for n in (2, 3):
+                for depth2 in (False, True):
+                    for pos in ("end", "mid"):
+                        out.append(_handler_harness(pid, mac, hk, n, depth2, pos))
+    return out
